@@ -13,6 +13,10 @@ pub(crate) struct EvalContext {
 
 impl EvalContext {
     pub(crate) fn new() -> Self {
+        #[cfg(feature = "verif-hooks")]
+        if let Some(seed) = crate::verif_hooks::seed_override() {
+            return Self::with_seed(seed);
+        }
         let mut seed_bytes: [u8; 8] = Default::default();
         getrandom::getrandom(&mut seed_bytes).unwrap();
         let seed = u64::from_le_bytes(seed_bytes);
@@ -64,6 +68,8 @@ impl EvalContext {
     }
 
     pub(crate) fn reset_random_seed(&mut self) {
+        #[cfg(feature = "verif-hooks")]
+        crate::verif_hooks::log_event(crate::verif_hooks::RngEvent::Reset);
         self.rng = RefCell::new(StdRng::seed_from_u64(self.seed));
     }
 
@@ -71,6 +77,13 @@ impl EvalContext {
         &self,
         range: R,
     ) -> i64 {
+        #[cfg(feature = "verif-hooks")]
+        {
+            let value = self.rng.borrow_mut().gen_range(range);
+            crate::verif_hooks::log_event(crate::verif_hooks::RngEvent::Draw(value));
+            return value;
+        }
+        #[cfg(not(feature = "verif-hooks"))]
         self.rng.borrow_mut().gen_range(range)
     }
 
